@@ -2,7 +2,7 @@
    ExtrOcamlBasic only; Z / positive / nat / N stay inductive.  No Extract
    Constant of our own. *)
 From Coq Require Import Extraction ExtrOcamlBasic.
-From Verif Require Import Base.GoPrim Model.IoUtil Model.Containers Model.SubnetSet Model.Cache Model.UrlRedact.
+From Verif Require Import Base.GoPrim Model.IoUtil Model.Containers Model.SubnetSet Model.Cache Model.UrlRedact Model.Addr.
 
 Extraction Language OCaml.
 Extraction "model.ml"
@@ -11,4 +11,6 @@ Extraction "model.ml"
   ring_run ring_new set_run map_range_ok
   is_locally_served is_special_purpose doc_locally_served doc_special_purpose cex_ls4 cex_ls6 cex_sp4 cex_sp6
   normalize_conf cache_run scripted_cb
-  redact redact_err.
+  redact redact_err
+  validate_hostname validate_domain_name validate_srv_domain_name is_valid_hostname
+  validate_hostname_label is_valid_hostname_label validate_domain_label validate_tld_label validate_service_label.
